@@ -73,14 +73,14 @@ Lemma get_data_some v p w : get_data (Some v) p = NavSome w <-> step v p = Some 
 Proof.
   unfold get_data, step. destruct v; try (split; discriminate).
   - destruct (parse_usize p); [|split; discriminate].
-    destruct (nth_error l (N.to_nat n)); split; congruence.
+    rewrite ?nth_N_spec; destruct (nth_error l (N.to_nat n)); split; congruence.
   - destruct (map_get m p); split; congruence.
 Qed.
 
 Lemma get_data_none v p : get_data (Some v) p = NavNone -> step v p = None.
 Proof.
   unfold get_data, step. destruct v; try reflexivity.
-  - destruct (parse_usize p); [|discriminate]. destruct (nth_error l (N.to_nat n)); congruence.
+  - destruct (parse_usize p); [|discriminate]. rewrite ?nth_N_spec; destruct (nth_error l (N.to_nat n)); congruence.
   - destruct (map_get m p); congruence.
 Qed.
 
@@ -89,7 +89,7 @@ Lemma get_data_bad v p s :
 Proof.
   unfold get_data. destruct v; try (split; [discriminate | intros (_ & _ & l & Hl); discriminate]).
   - destruct (parse_usize p) eqn:E.
-    + destruct (nth_error l (N.to_nat n)); (split; [discriminate | intros (_ & H & _); discriminate]).
+    + rewrite ?nth_N_spec; destruct (nth_error l (N.to_nat n)); (split; [discriminate | intros (_ & H & _); discriminate]).
     + split; [intro H; inversion H; eauto | intros (-> & _ & _); reflexivity].
   - destruct (map_get m p); (split; [discriminate | intros (_ & _ & l & Hl); discriminate]).
 Qed.
@@ -840,7 +840,7 @@ Theorem lookup_array reg h s coll idx rest l i :
   end.
 Proof.
   intros Hp Hc Hi. unfold call_inner, param_or. rewrite Hp. cbn [nth_error]. rewrite Hc, Hi.
-  cbn [as_u64]. destruct (nth_error l (N.to_nat i)); reflexivity.
+  cbn [as_u64]. rewrite ?nth_N_spec; destruct (nth_error l (N.to_nat i)); reflexivity.
 Qed.
 
 (* ... which is one walk step along the segment spelled as the decimal index *)
@@ -855,7 +855,7 @@ Theorem lookup_array_walk reg h s coll idx rest l i :
 Proof.
   intros Hp Hc Hi Hle. rewrite (lookup_array reg h s coll idx rest l i Hp Hc Hi).
   cbn [get_data]. rewrite parse_usize_n_to_dec by exact Hle.
-  destruct (nth_error l (N.to_nat i)); reflexivity.
+  rewrite ?nth_N_spec; destruct (nth_error l (N.to_nat i)); reflexivity.
 Qed.
 
 (* every other combination of collection and index finds nothing *)
